@@ -379,6 +379,13 @@ def observe(seed, tier):
                         for p in ("C02", "C01"):
                             hit(p, "the generated code omits dependencies the dataflow needs (job: missing providers) %s: the scheduler may run the job before its provider" % missing,
                                 {"flow": f.model_line(), "go_function": f.name(), "generated": got, "model": want, "module": mod})
+                        # a task that does not wait for its own predicate reads the predicate's flag and its captured
+                        # panic before they are written: the predicate's verdict (C11) and its panic (C04) can be lost
+                        lost_pred = {j: m for j, m in missing.items() if j.startswith("t") and ("q" + j[1:]) in m}
+                        if lost_pred:
+                            for p in ("C04", "C11"):
+                                hit(p, "task job(s) %s do not depend on the job of their own predicate: in a schedule that runs the task job first, a panic of the predicate is never reported and a false predicate does not skip the task" % sorted(lost_pred),
+                                    {"flow": f.model_line(), "go_function": f.name(), "generated": got, "model": want, "module": mod})
                     else:
                         hit("GRAPH", "the Dependencies lists in the generated code have edges the model's job graph lacks: generated %s, model %s" % (gs, ws),
                             {"flow": f.model_line(), "go_function": f.name(), "generated": got, "model": want})
